@@ -2,7 +2,8 @@
 LEVEL_TEXT = ("Deductive: CHOOSE (arities to 5), INDEX on one-dimensional arrays of any length and on every two-dimensional shape up to 3x3 "
               "for ALL integer indices (Python's negative-index wrap-around is modelled, which is what makes the safety clause bite), "
               "MATCH type 0 on numeric arrays of any length (loop invariant).  Bounded: MATCH types 1/-1 on all sorted arrays of length <= 5 "
-              "over -3..3, text lookups through fnmatch, larger 2-D shapes.")
+              "over -3..3, text lookups through fnmatch (arrays mixing text, numbers, logicals, blanks), larger 2-D shapes, MATCH / INDEX over host lists the host edits "
+              "in place between evaluations (history independence).")
 TRUSTED = ['fnmatch.fnmatch (assumed library contract)', 'array literal construction: grammar contracts p_array / p_expseq_* (C05)']
 
 
